@@ -2284,6 +2284,18 @@ private:
 
   void drop_some_non_integer_points_helper(N& elem);
 
+  /*! \brief
+    Throws an exception if \p c is dimension-incompatible with \p *this
+    or it is neither an octagonal nor a trivial constraint.
+  */
+  void check_constraint(const char* method, const Constraint& c) const;
+
+  /*! \brief
+    Throws an exception if \p cg is dimension-incompatible with \p *this
+    or it is neither an octagonal equality nor a trivial congruence.
+  */
+  void check_congruence(const char* method, const Congruence& cg) const;
+
   friend std::ostream&
   Parma_Polyhedra_Library::IO_Operators
   ::operator<<<>(std::ostream& s, const Octagonal_Shape<T>& c);
